@@ -493,3 +493,28 @@ def carry_tree(rng, spec):
         if rng.random() < 0.3:
             ops.append({"op": "observe", "on": "real"})
     spec["ops"] = ops
+
+
+def unclosed_trades(rng, spec):
+    """dates on which capital is injected and consumed by an update, and a TRADE afterwards leaves the tree stale when the clock
+    moves (no closing update, no read): what was injected on a date is a flow of that date only"""
+    T = spec["T"]
+    secs = [p for p in all_paths(spec["tree"]) if p[1]]
+    cap = spec["capital"]
+    ops = [{"op": "adjust", "path": [], "amount": cap, "update": True, "flow": True}, {"op": "update", "d": 0}]
+    for d in range(1, T):
+        ops.append({"op": "update", "d": d})
+        if rng.random() < 0.6:
+            ops.append({"op": "adjust", "path": [], "amount": float(rng.choice([0.05, 0.1, -0.03, 0.2])) * cap, "update": True, "flow": rng.random() < 0.8})
+            ops.append({"op": "update", "d": d})              # the flow is consumed by an update (an injection is always followed by one) ...
+        if secs and rng.random() < 0.8:
+            p = rng.choice(secs)
+            px = spec["prices"][p[2]["sec"]][d]
+            if px is not None and px > 0:
+                # ... and a trade afterwards marks the tree stale; nothing refreshes it before the next date
+                ops.append({"op": "allocate", "path": p[0], "amount": float(rng.choice([0.02, 0.05, -0.01])) * cap, "update": True})
+        if rng.random() < 0.3:
+            ops.append({"op": "update", "d": d})
+    ops.append({"op": "update", "d": T - 1})
+    ops.append({"op": "observe", "on": "real"})
+    spec["ops"] = ops
